@@ -334,7 +334,7 @@ fn stride_strategy() -> impl Strategy<Value = isize> {
 }
 
 
-fn part_strategy(max_len: usize) -> impl Strategy<Value = PartCase> {
+pub fn part_strategy(max_len: usize) -> impl Strategy<Value = PartCase> {
     (values_strategy(max_len), any::<u16>(), stride_strategy(), 0usize..3, 0u8..20).prop_map(|(mut values, p, stride, offset, oor)| {
         if values.is_empty() {
             values.push(0);
@@ -356,7 +356,7 @@ fn oor_position(n: usize, sel: u8) -> usize {
     }
 }
 
-fn sel_strategy(max_len: usize, oor_share: u8) -> impl Strategy<Value = SelCase> {
+pub fn sel_strategy(max_len: usize, oor_share: u8) -> impl Strategy<Value = SelCase> {
     (values_strategy(max_len), any::<u16>(), stride_strategy(), 0usize..3, pivots_strategy(), 0u8..100, any::<u8>()).prop_map(
         move |(values, p, stride, offset, pivots, roll, sel)| {
             let n = values.len();
@@ -366,7 +366,7 @@ fn sel_strategy(max_len: usize, oor_share: u8) -> impl Strategy<Value = SelCase>
     )
 }
 
-fn bulk_strategy(max_len: usize, oor_share: u8) -> impl Strategy<Value = BulkCase> {
+pub fn bulk_strategy(max_len: usize, oor_share: u8) -> impl Strategy<Value = BulkCase> {
     (
         values_strategy(max_len),
         proptest::collection::vec(any::<u16>(), 0..12),
